@@ -1158,4 +1158,296 @@ theorem sortN_one (a : String) (ls : List Q) : sortN [] (ls.map (loc1 a)) = (sor
   exact (List.map_mergeSort (fun x hx y hy => keyLe_one a ls x y hx hy)).symm
 
 
+
+/-! ## 10. rounded deltas: `getDeltas(values, round=...)` as varLib stores them -/
+
+theorem deltasWithGo_append {Loc : Type} (rnd : Q → Q) (pS : List (Loc → Q)) (pD : List Q) (m1 m2 : List ((Loc → Q) × Loc × Q)) :
+    deltasWithGo rnd pS pD (m1 ++ m2) = deltasWithGo rnd (pS ++ m1.map (·.1)) (deltasWithGo rnd pS pD m1) m2 := by
+  induction m1 generalizing pS pD with
+  | nil => simp [deltasWithGo]
+  | cons m m1 ih =>
+    obtain ⟨f, l, v⟩ := m
+    simp only [List.cons_append, deltasWithGo, ih, List.map_cons, List.append_assoc, List.nil_append]
+
+theorem deltasWithGo_prefix {Loc : Type} (rnd : Q → Q) (pS : List (Loc → Q)) (pD : List Q) (ms : List ((Loc → Q) × Loc × Q)) :
+    ∃ t, deltasWithGo rnd pS pD ms = pD ++ t ∧ t.length = ms.length := by
+  induction ms generalizing pS pD with
+  | nil => exact ⟨[], by simp [deltasWithGo]⟩
+  | cons m ms ih =>
+    obtain ⟨f, l, v⟩ := m
+    obtain ⟨t, ht, hl⟩ := ih (pS ++ [f]) (pD ++ [rnd (v - dot pS l pD)])
+    exact ⟨rnd (v - dot pS l pD) :: t, by simp [deltasWithGo, ht], by simp [hl]⟩
+
+/-- with `round = id` this is the exact construction -/
+theorem deltasWithGo_id {Loc : Type} (pS : List (Loc → Q)) (pD : List Q) (ms : List ((Loc → Q) × Loc × Q)) :
+    deltasWithGo id pS pD ms = deltasGo pS pD ms := by
+  induction ms generalizing pS pD with
+  | nil => rfl
+  | cons m ms ih => obtain ⟨f, l, v⟩ := m; simp only [deltasWithGo, deltasGo, ih, id]
+
+/-- what the rounded construction gives back at master `i`: with `x` = the number that was rounded to get master `i`'s delta
+    (its value minus the contributions of the earlier ROUNDED deltas), the interpolated value is `v - x + rnd x`: the error is
+    the error of that ONE rounding -/
+theorem deltasWith_reproduce {Loc : Type} (rnd : Q → Q) (A B : List ((Loc → Q) × Loc × Q)) (f : Loc → Q) (l : Loc) (v : Q)
+    (hd : f l = 1) (hu : ∀ b ∈ B, b.1 l = 0) :
+    dot ((A ++ (f, l, v) :: B).map (·.1)) l (deltasWith rnd (A ++ (f, l, v) :: B)) =
+      v - (v - dot (A.map (·.1)) l (deltasWith rnd A)) + rnd (v - dot (A.map (·.1)) l (deltasWith rnd A)) := by
+  unfold deltasWith
+  rw [deltasWithGo_append]
+  obtain ⟨tA, hA, hlA⟩ := deltasWithGo_prefix rnd ([] : List (Loc → Q)) [] A
+  simp only [List.nil_append] at hA
+  simp only [deltasWithGo, List.nil_append, hA]
+  obtain ⟨tB, hB, hlB⟩ := deltasWithGo_prefix rnd (A.map (·.1) ++ [f]) (tA ++ [rnd (v - dot (A.map (·.1)) l tA)]) B
+  rw [hB]
+  simp only [List.map_append, List.map_cons]
+  have e1 : (A.map (·.1) ++ f :: B.map (·.1)) = (A.map (·.1) ++ [f]) ++ B.map (·.1) := by simp
+  rw [e1, dot_append _ _ _ _ _ (by simp [hlA]), dot_append _ _ _ _ _ (by simp [hlA])]
+  rw [dot_zero (B.map (·.1)) l tB (by
+    intro g hg
+    obtain ⟨b, hb, rfl⟩ := List.mem_map.mp hg
+    exact hu b hb)]
+  simp only [dot, hd]
+  grind
+
+/-- the number that is rounded to get the delta of master `i` -/
+def preDelta {Loc : Type} (rnd : Q → Q) (S : List (Loc → Q)) (locs : List Loc) (vs : List Q) (i : Nat) (l : Loc) (v : Q) : Q :=
+  v - dot (((S.zip (locs.zip vs)).take i).map (·.1)) l (deltasWith rnd ((S.zip (locs.zip vs)).take i))
+
+theorem deltaModel_law_with {Loc : Type} (rnd : Q → Q) (S : List (Loc → Q)) (locs : List Loc) (hlen : S.length = locs.length)
+    (hd : ∀ i (h1 : i < S.length) (h2 : i < locs.length), S[i] locs[i] = 1)
+    (hu : ∀ i j (hi : i < locs.length) (hj : j < S.length), i < j → S[j] locs[i] = 0)
+    (i : Nat) (vs : List Q) (h : i < locs.length) (hv : vs.length = locs.length) :
+    interpolateWith rnd S locs locs[i] vs =
+      vs[i] - preDelta rnd S locs vs i locs[i] vs[i] + rnd (preDelta rnd S locs vs i locs[i] vs[i]) := by
+  unfold interpolateWith preDelta
+  have hms : (S.zip (locs.zip vs)).length = locs.length := by simp [hlen, hv]
+  have hi : i < (S.zip (locs.zip vs)).length := by omega
+  have hsplit : S.zip (locs.zip vs) = (S.zip (locs.zip vs)).take i ++ (S.zip (locs.zip vs))[i] :: (S.zip (locs.zip vs)).drop (i + 1) := by
+    rw [List.getElem_cons_drop, List.take_append_drop]
+  have hel : (S.zip (locs.zip vs))[i] = (S[i], locs[i], vs[i]) := by simp
+  have hS : (S.zip (locs.zip vs)).map (·.1) = S := by
+    apply List.map_fst_zip
+    simp [hlen, hv]
+  have key := deltasWith_reproduce rnd ((S.zip (locs.zip vs)).take i) ((S.zip (locs.zip vs)).drop (i + 1)) S[i] locs[i] vs[i]
+    (hd i (by omega) h) (by
+      intro b hb
+      obtain ⟨k, hk, rfl⟩ := List.mem_iff_getElem.mp hb
+      simp only [List.length_drop] at hk
+      simp only [List.getElem_drop, List.getElem_zip]
+      exact hu i (i + 1 + k) h (by omega) (by omega))
+  rw [← hel, ← hsplit, hS] at key
+  exact key
+
+/-- (2) ROUNDED MASTER REPRODUCTION: with integer deltas computed as `getDeltas(values, round=otRound)` does, the value
+    interpolated at master `i`'s location is within 1/2 of master `i`'s value (more precisely in `(v - 1/2, v + 1/2]`), for
+    any number of axes and masters: the error is the error of the ONE rounding of master `i`'s own delta, because the later
+    supports vanish there and the own support is 1 -/
+theorem nAxis_law_rounded (ls : List NLoc) (hwf : wfN ls) (i : Nat) (vs : List Q) (h : i < ls.length) (hv : vs.length = ls.length) :
+    vs[i] - 1/2 < interpolateNRound otRound ls ls[i] vs ∧ interpolateNRound otRound ls ls[i] vs ≤ vs[i] + 1/2 ∧
+      absQ (interpolateNRound otRound ls ls[i] vs - vs[i]) ≤ 1/2 := by
+  unfold interpolateNRound
+  rw [deltaModel_law_with _ (scalarsN ls) ls (scalarsN_length ls) (fun k h1 h2 => by
+      rw [scalarsN_get ls k h2]; exact support_self ls hwf.1 k h2) (fun a b ha hb hab => by
+      have hb' : b < ls.length := by rw [← scalarsN_length ls]; exact hb
+      rw [scalarsN_get ls b hb']; exact support_later_zero ls hwf a b hab hb') i vs h hv]
+  generalize preDelta _ (scalarsN ls) ls vs i ls[i] vs[i] = x
+  have hx := otRound_near x
+  refine ⟨by grind, by grind, ?_⟩
+  unfold absQ
+  split <;> grind
+
+
+/-! ### integer master values -/
+
+def IsInt (q : Q) : Prop := ∃ n : Int, q = (n : Q)
+
+theorem isInt_zero : IsInt 0 := ⟨0, by simp⟩
+theorem isInt_add {a b : Q} (ha : IsInt a) (hb : IsInt b) : IsInt (a + b) := by
+  obtain ⟨m, rfl⟩ := ha; obtain ⟨n, rfl⟩ := hb; exact ⟨m + n, by simp [Rat.intCast_add]⟩
+theorem isInt_sub {a b : Q} (ha : IsInt a) (hb : IsInt b) : IsInt (a - b) := by
+  obtain ⟨m, rfl⟩ := ha; obtain ⟨n, rfl⟩ := hb; exact ⟨m - n, by simp [Rat.intCast_sub]⟩
+theorem isInt_mul {a b : Q} (ha : IsInt a) (hb : IsInt b) : IsInt (a * b) := by
+  obtain ⟨m, rfl⟩ := ha; obtain ⟨n, rfl⟩ := hb; exact ⟨m * n, by simp [Rat.intCast_mul]⟩
+
+/-- rounding an integer does nothing -/
+theorem otRound_intCast (n : Int) : otRound (n : Q) = n := by
+  unfold otRound
+  have h1 : n ≤ ((n : Q) + 1/2).floor := Rat.le_floor_iff.mpr (by grind)
+  have h2 : ((n : Q) + 1/2).floor < n + 1 := Rat.floor_lt_iff.mpr (by simp [Rat.intCast_add]; grind)
+  omega
+
+theorem dot_isInt {Loc : Type} (S : List (Loc → Q)) (x : Loc) (D : List Q) (hS : ∀ f ∈ S, IsInt (f x)) (hD : ∀ d ∈ D, IsInt d) :
+    IsInt (dot S x D) := by
+  induction S generalizing D with
+  | nil => cases D <;> exact isInt_zero
+  | cons f S ih =>
+    cases D with
+    | nil => exact isInt_zero
+    | cons d D =>
+      simp only [dot]
+      exact isInt_add (isInt_mul (hS f (by simp)) (hD d (by simp)))
+        (ih D (fun g hg => hS g (by simp [hg])) (fun e he => hD e (by simp [he])))
+
+theorem deltasWithGo_all {Loc : Type} (P : Q → Prop) (rnd : Q → Q) (hr : ∀ x, P (rnd x)) (pS : List (Loc → Q)) (pD : List Q)
+    (ms : List ((Loc → Q) × Loc × Q)) (hp : ∀ d ∈ pD, P d) : ∀ d ∈ deltasWithGo rnd pS pD ms, P d := by
+  induction ms generalizing pS pD with
+  | nil => exact hp
+  | cons m ms ih =>
+    obtain ⟨f, l, v⟩ := m
+    simp only [deltasWithGo]
+    apply ih
+    intro d hd
+    rcases List.mem_append.mp hd with hd | hd
+    · exact hp d hd
+    · simp only [List.mem_singleton] at hd; subst hd; exact hr _
+
+/-- every stored delta is an integer -/
+theorem deltasNRound_isInt (rnd : Q → Int) (ls : List NLoc) (vs : List Q) : ∀ d ∈ deltasNRound rnd ls vs, IsInt d :=
+  deltasWithGo_all IsInt _ (fun x => ⟨rnd x, rfl⟩) [] [] _ (by simp)
+
+/-- (2') EXACT reproduction of an integer master value when the scalars of the earlier masters at this master's location are
+    integers (0 or 1 in practice: masters on the axes, at corners, intermediates on one axis).  With FRACTIONAL earlier scalars the
+    reproduction is in general NOT exact even for integer master values: `rounded_not_exact_witness`. -/
+theorem nAxis_law_rounded_int (ls : List NLoc) (hwf : wfN ls) (i : Nat) (vs : List Q) (h : i < ls.length) (hv : vs.length = ls.length)
+    (hvi : IsInt vs[i])
+    (hw : ∀ j (hj : j < i), IsInt (supportScalar ls[i] ((supportsN ls)[j]'(by rw [supportsN_length]; omega)))) :
+    interpolateNRound otRound ls ls[i] vs = vs[i] := by
+  unfold interpolateNRound
+  rw [deltaModel_law_with _ (scalarsN ls) ls (scalarsN_length ls) (fun k h1 h2 => by
+      rw [scalarsN_get ls k h2]; exact support_self ls hwf.1 k h2) (fun a b ha hb hab => by
+      have hb' : b < ls.length := by rw [← scalarsN_length ls]; exact hb
+      rw [scalarsN_get ls b hb']; exact support_later_zero ls hwf a b hab hb') i vs h hv]
+  have hx : IsInt (preDelta (fun x => ((otRound x : Int) : Q)) (scalarsN ls) ls vs i ls[i] vs[i]) := by
+    unfold preDelta
+    apply isInt_sub hvi
+    apply dot_isInt
+    · intro f hf
+      obtain ⟨e, he, rfl⟩ := List.mem_map.mp hf
+      obtain ⟨j, hj, rfl⟩ := List.mem_take_iff_getElem.mp he
+      have hj' : j < i := by omega
+      have hjl : j < ls.length := by omega
+      simp only [List.getElem_zip]
+      rw [scalarsN_get ls j hjl]
+      exact hw j hj'
+    · exact deltasWithGo_all IsInt _ (fun x => ⟨otRound x, rfl⟩) [] [] _ (by simp)
+  obtain ⟨n, hn⟩ := hx
+  rw [hn, otRound_intCast]
+  grind
+
+/-- two axes: default, the two axis extremes, the corner, two intermediate masters inside the quadrant (in model order) -/
+def exQuad : List NLoc :=
+  [[], [("a", 1)], [("b", 1)], [("a", 1), ("b", 1)], [("a", 1/2), ("b", 1/2)], [("a", 1/2), ("b", 3/4)]]
+
+example : wfN exQuad := by decide +kernel
+
+/-- integer master values, but the corner's support is 1/4 at the intermediate master (1/2, 1/2): the corner's integer delta 1
+    contributes 1/4 there, the intermediate master's own delta rounds -1/4 to 0, and the value read back is 1/4, not 0 -/
+theorem rounded_not_exact_witness :
+    interpolateNRound otRound exQuad [("a", 1/2), ("b", 1/2)] [0, 0, 0, 1, 0, 0] = 1/4 ∧
+      supportScalar [("a", 1/2), ("b", 1/2)] (regionOf (exQuad.take 3) [("a", 1), ("b", 1)]) = 1/4 := by
+  decide +kernel
+
+/-- CONTRAST (why `getDeltas` subtracts the ROUNDED earlier deltas): rounding the exact deltas independently misses an integer
+    master by 3/4 - the exact deltas of the two intermediate masters are both -1/2, each rounds to 0, and at the last master
+    both errors add up (1/2 + 1/2·1/2); the sequential rounding of the code gives the last delta -1 and stays within 1/2 (-1/4) -/
+theorem roundedAfter_witness :
+    interpolateRoundedAfter (fun x => ((otRound x : Int) : Q)) (scalarsN exQuad) exQuad [("a", 1/2), ("b", 3/4)] [0, 0, 0, 2, 0, 0] = 3/4 ∧
+      interpolateNRound otRound exQuad [("a", 1/2), ("b", 3/4)] [0, 0, 0, 2, 0, 0] = -1/4 ∧
+      deltasN exQuad [0, 0, 0, 2, 0, 0] = [0, 0, 0, 2, -1/2, -1/2] ∧
+      deltasNRound otRound exQuad [0, 0, 0, 2, 0, 0] = [0, 0, 0, 2, 0, -1] := by
+  decide +kernel
+
+
+/-! ### the constructor on the user's order, and what a rounding consumer reads back -/
+
+theorem interpolateNRound_congr (rnd : Q → Int) (ls : List NLoc) (x y : NLoc) (vs : List Q) (h : ∀ a, coord x a = coord y a) :
+    interpolateNRound rnd ls x vs = interpolateNRound rnd ls y vs := by
+  unfold interpolateNRound interpolateWith
+  apply dot_congr
+  intro f hf
+  unfold scalarsN at hf
+  obtain ⟨r, _, rfl⟩ := List.mem_map.mp hf
+  exact supportScalarGo_congr x y h r 1
+
+/-- where the user's master `i` sits in the model order, and that `reverseMapping` brings its value there -/
+theorem userOrder_spec (ao : List String) (locations locs : List NLoc) (hlocs : locs = locations.map dropZeros)
+    (hwf : wfInput locations) (values : List Q) (i : Nat) (h : i < locations.length) (hv : values.length = locations.length) :
+    ∃ (k : Nat) (hk : k < (sortN ao locs).length),
+      (∀ a, coord locations[i] a = coord (sortN ao locs)[k] a) ∧
+      (((sortN ao locs).map (fun l => locs.findIdx (fun p => dictEq p l))).map
+        (fun k => values.getD k 0))[k]'(by simpa using hk) = values[i] := by
+  obtain ⟨hloc, hd0, hd, hbase⟩ := hwf
+  rw [← hlocs] at hd hbase
+  have hlen : locs.length = locations.length := by rw [hlocs]; simp
+  have hi : i < locs.length := by omega
+  have hli : locs[i] = dropZeros locations[i] := by subst hlocs; simp
+  have hmem : locs[i] ∈ sortN ao locs := (sortN_perm ao locs).mem_iff.mpr (List.getElem_mem hi)
+  obtain ⟨k, hk, hke⟩ := List.getElem_of_mem hmem
+  refine ⟨k, hk, ?_, ?_⟩
+  · intro a
+    rw [hke, hli, coord_dropZeros _ (hloc _ (List.getElem_mem h)).1]
+  · simp only [List.getElem_map]
+    have hnd : (keysOf locs[i]).Nodup := by
+      rw [hli]; exact (locOk_dropZeros _ (hloc _ (List.getElem_mem h)).1 (hloc _ (List.getElem_mem h)).2).1
+    have hfi : locs.findIdx (fun p => dictEq p (sortN ao locs)[k]) = i := by
+      rw [List.findIdx_eq hi]
+      rw [hke]
+      refine ⟨dictEq_refl _ hnd, ?_⟩
+      intro j hji
+      exact List.pairwise_iff_getElem.mp ((allDistinct_iff _).mp hd) j i (by omega) hi hji
+    rw [hfi]
+    simp [List.getD_eq_getElem?_getD, show i < values.length by omega]
+
+/-- ROUNDED MASTER REPRODUCTION FOR THE MODELLED `VariationModel`: for every well-formed master set in any order, on any number
+    of axes, `interpolateFromDeltas(locations[i], getDeltas(values, round=otRound))` is within 1/2 of `values[i]` -/
+theorem variationModel_law_rounded (ao : List String) (locations : List NLoc) (hwf : wfInput locations) :
+    ∃ m, variationModel ao locations = .ok m ∧
+      ∀ (values : List Q) (i : Nat) (h : i < locations.length) (hv : values.length = locations.length),
+        absQ (m.interpolateRounded otRound locations[i] values - values[i]) ≤ 1/2 := by
+  have hwfN := wfN_sortN ao locations hwf
+  have hwf' := hwf
+  obtain ⟨hloc, hd0, hd, hbase⟩ := hwf
+  refine ⟨_, by simp only [variationModel, hd0, hd, hbase, Bool.not_true, Bool.false_eq_true, if_false]; rfl, ?_⟩
+  intro values i h hv
+  obtain ⟨k, hk, hcoord, hval⟩ := userOrder_spec ao locations _ rfl hwf' values i h hv
+  simp only [VModel.interpolateRounded]
+  rw [interpolateNRound_congr _ _ _ _ _ hcoord]
+  have := (nAxis_law_rounded (sortN ao (locations.map dropZeros)) hwfN k
+    (((sortN ao (locations.map dropZeros)).map (fun l => (locations.map dropZeros).findIdx (fun p => dictEq p l))).map
+      (fun k => values.getD k 0)) hk (by simp)).2.2
+  rw [hval] at this
+  exact this
+
+/-- a consumer that rounds what it reads (the instancer writing integer coordinates) lands within 1 of an integer it is within
+    1/2 of -/
+theorem round_of_near_int (y : Q) (n : Int) (h : absQ (y - n) ≤ 1/2) : absQ ((otRound y : Q) - n) ≤ 1 := by
+  have hy := otRound_near y
+  unfold absQ at *
+  split at h <;> split <;> grind
+
+/-- **C10_outline_rounded** (replaces the former `C10_outline_partial`, whose ≤ 1 rested on the exact law as a hypothesis).
+    What ufo2ft hands to varLib per outline coordinate / advance is one INTEGER per master (the interpolatable masters are
+    compiled, i.e. rounded, first: `masters[i] = otRound(source[i])`).  For the modelled `VariationModel` - any number of axes and
+    masters, any order - the integer deltas `getDeltas(masters, round=otRound)` evaluated at master `i`'s location give a number
+    within 1/2 of `masters[i]`, and a consumer that rounds it (fontTools' instancer writing glyf/hmtx) gets an integer within 1
+    of `masters[i]`.
+    PROVED here: the delta-rounding part, for the model of fontTools' VariationModel on exact rationals.
+    STILL ASSUMED (measured by the harness on every family): (a) gvar / HVAR / CFF2 blend / GPOS variation stores written by
+    varLib and read by the instancer evaluate `Σ_j supportScalar(loc, support_j) · delta_j` with these supports and these deltas
+    (F2Dot14 region coordinates: master locations on the 2^-14 grid); (b) VariationModel's double arithmetic agrees with the
+    rational model (compared exactly on dyadic grids); (c) IUP-optimised gvar (omitted points inferred) reproduces the
+    unoptimised deltas within its tolerance. -/
+theorem C10_outline_rounded (ao : List String) (locations : List NLoc) (hwf : wfInput locations) :
+    ∃ m, variationModel ao locations = .ok m ∧
+      ∀ (source : List Q) (i : Nat) (h : i < locations.length) (hs : source.length = locations.length),
+        let masters := source.map (fun c => ((otRound c : Int) : Q))
+        let stored := m.interpolateRounded otRound locations[i] masters
+        absQ (stored - (otRound source[i] : Q)) ≤ 1/2 ∧ absQ ((otRound stored : Q) - (otRound source[i] : Q)) ≤ 1 := by
+  obtain ⟨m, hm, hlaw⟩ := variationModel_law_rounded ao locations hwf
+  refine ⟨m, hm, ?_⟩
+  intro source i h hs
+  have := hlaw (source.map (fun c => ((otRound c : Int) : Q))) i h (by simpa using hs)
+  simp only [List.getElem_map] at this
+  exact ⟨this, round_of_near_int _ _ this⟩
+
 end Ufo2ft.C10
